@@ -101,7 +101,7 @@ class Gen(object):
             elif allow_ops:
                 # a 221 range over elements of every class: 01-09 and 31 keep their data, 00 and 10+ have none
                 y = rng.randint(1, 4)
-                pool = [1001, 2001, 4001, 5001, 6001, 7004, 8002, 1015] + ([rng.choice(self.cls0)] if self.cls0 else []) + \
+                pool = [1001, 2001, 4001, 5001, 6001, 7004, 8002, 1015, 31021] + ([rng.choice(self.cls0)] if self.cls0 else []) + \
                        [rng.choice(self.num), rng.choice(self.code), self.elem()]
                 # (sometimes the count runs past the elements that follow: the range is still open at the end)
                 out += [221000 + y + (rng.randint(1, 3) if rng.random() < 0.2 else 0)] + [rng.choice(pool) for _ in range(y)]
